@@ -606,3 +606,49 @@ Proof.
   intros Hv. apply retain_run_keeps_newest_lemma; [|exact Hv].
   split; [intros x []|]. split; [left; split; reflexivity|lia].
 Qed.
+
+(* ---------- the checkpoint used for recovery never goes back within a store lifetime ---------- *)
+Definition cur_id (s : pstate) : N := list_max (completed s).
+
+Lemma cur_monotone_step s st : KS s ->
+  match st with Crash | Rewind _ => True | _ => cur_id s <= cur_id (exec1 prepaired s st) end.
+Proof.
+  intros K. destruct st as [n|n|n|k|k| | |sp]; try exact I; unfold exec1, cur_id.
+  - destruct ((last s <? n) && (n <=? max64)); cbn [completed]; lia.
+  - destruct (mem n (inflW s)); cbn [completed]; lia.
+  - destruct (mem n (inflU s)) eqn:E; [|lia]. apply mem_In in E.
+    cbn [no_id_guard prepaired negb andb].
+    destruct (existsb (fun c => n <? c) (completed s)) eqn:Esup; cbn [completed]; [lia|].
+    cbn [list_max fold_right].
+    assert (H : list_max (completed s) <= n).
+    { clear - Esup. induction (completed s) as [|c l IH]; cbn [list_max fold_right existsb] in *; [lia|].
+      apply orb_false_elim in Esup. destruct Esup as [E1 E2]. specialize (IH E2). fold (list_max l). apply N.ltb_ge in E1. lia. }
+    lia.
+  - destruct (nth_error (pend_rm s) k); cbn [completed]; lia.
+  - destruct (nhold s); [lia|]. destruct (nth_error (nwait s) k); cbn [completed]; lia.
+  - destruct (nhold s); cbn [completed]; lia.
+Qed.
+
+Theorem current_never_goes_back base sched st :
+  base <= max64 ->
+  let s := exec prepaired (boot prepaired base) sched in
+  match st with Crash | Rewind _ => True | _ => cur_id s <= cur_id (exec1 prepaired s st) end.
+Proof. intros Hb s. apply cur_monotone_step. apply KS_exec, KS_boot. exact Hb. Qed.
+
+(* D17 / seeded C12r3-3: without the guard the current checkpoint goes back from 3 to 2 *)
+Lemma current_goes_back_unguarded :
+  let s := exec (MkPQ false true) (boot (MkPQ false true) 0) [Start 1; W 1; U 1; Start 2; Start 3; W 3; U 3; W 2] in
+  cur_id s = 3 /\ cur_id (exec1 (MkPQ false true) s (U 2)) = 2.
+Proof. vm_compute. split; reflexivity. Qed.
+
+(* ---------- job start ---------- *)
+Theorem job_start_newest_or_refuse ids fault :
+  ok64 ids ->
+  (ids = [] /\ job_start ids fault = Some None) \/
+  (ids <> [] /\ (job_start ids fault = None \/ job_start ids fault = Some (Some (list_max ids)))).
+Proof.
+  intros Hok. unfold job_start. destruct ids as [|x l].
+  - left. split; reflexivity.
+  - right. split; [discriminate|]. rewrite load_picks_max_lemma by (auto; discriminate).
+    destruct (fault =? 0); [right|left]; reflexivity.
+Qed.
